@@ -145,7 +145,11 @@ impl VouchedTime {
         }
 
         Self::check_vouched_time(
-            local_time.assume_utc().unix_timestamp_nanos() / 1_000_000,
+            // Round down (not toward zero): times less than 1 ms before the epoch are negative.
+            local_time
+                .assume_utc()
+                .unix_timestamp_nanos()
+                .div_euclid(1_000_000),
             base_time_ms,
         )
     }
